@@ -28,7 +28,7 @@ def closure_of(m, kind, k):
             args.append({'v': str(a['v'])})
         elif t == 'array':
             sig.append('a')
-            args.append({'vals': [str(i) for i in range(a.get('n', 0) // 4)]})
+            args.append({'vals': [str(i) for i in range(a.get('n', 0) // 4)], 'extra': a.get('n', 0) % 4})
         elif t == 'nil':
             sig += ['?', 'o']
             ty = a.get('type', '')
